@@ -213,6 +213,8 @@ def std_kinds(names, cfg_fn=None, cfg_fn2=None, partial_fn=None):
       'tvv': Kind('tvv', 1, False, lambda v: N.TagA.new(v[0]), True),
       'tv': Kind('tv', 1, True, lambda v: (N.TagA.new() if v[0] is UNSET
                                            else N.TagA.new(v[0])), True),
+      'cfgfail': Kind('cfgfail', 2, True, mk_buildable(fdl.Config, N.failer),
+                      True),
       'cfgmut': Kind('cfgmut', 2, True, mk_buildable(fdl.Config, N.mutator),
                      True),
       'tmpprim': Kind('tmpprim', 1, False, lambda v: N.TmpPrim(v[0]),
